@@ -99,8 +99,11 @@ def one(args):
         w.write(data)
     t0 = time.time()
     try:
-        p = subprocess.run([lal, "-f", "a.lalrpop"], cwd=dd, stdout=subprocess.PIPE, stderr=subprocess.STDOUT, timeout=120)
+        # 120 s of CPU time (not wall time: the machine may be loaded); the wall limit is only a backstop
+        p = subprocess.run(["bash", "-c", 'ulimit -t 120; exec "$0" -f a.lalrpop', lal], cwd=dd, stdout=subprocess.PIPE, stderr=subprocess.STDOUT, timeout=3000)
         code, out = p.returncode, p.stdout.decode("utf-8", "replace")
+        if code in (-24, -9, 128 + 24):
+            code, out = "timeout", ""
     except subprocess.TimeoutExpired:
         code, out = "timeout", ""
     has_rs = os.path.exists(os.path.join(dd, "a.rs"))
@@ -149,7 +152,7 @@ def run(tier):
         text = data.decode("utf-8", "replace")
         if code == "timeout":
             dist["timeout"] += 1; key = "hang"
-            what = "lalrpop did not finish within 120 s"
+            what = "lalrpop did not finish within 120 s of CPU time"
         elif "panicked at" in out or code == 101 or (isinstance(code, int) and code < 0):
             dist["panicked"] += 1
             key = "panic:" + sites(out)[0].replace(vlib.REPO + "/", "")
@@ -173,7 +176,7 @@ def run(tier):
     for (data, kind) in inputs[: (60 if tier == "quick" else 600)]:
         dd = fsrun.fresh_dir("c18api")
         open(os.path.join(dd, "a.lalrpop"), "wb").write(data)
-        p = vlib.sh([api, "process_file:a.lalrpop", "force=1"], cwd=dd, check=False, timeout=300)
+        p = vlib.sh([api, "process_file:a.lalrpop", "force=1"], cwd=dd, check=False, timeout=1800)
         napi += 1
         if "PANIC" in p.stdout or p.returncode not in (0, 1):
             key = "api-panic"
@@ -184,7 +187,7 @@ def run(tier):
     ncase = len(inputs) + napi
     cov = {"obligations": nobl + ncase, "discharged": ndis + ncase - nbad,
            "checker_cmd": "make -C coq; coqc Props/C18.v; lalrpop -f on mutated/raw grammar texts (16 parallel); harness apirun process_file",
-           "trusted_base": vlib.TRUSTED_COMMON + ["exit status and panic message of the real binary", "120 s limit as the meaning of `hangs`"],
+           "trusted_base": vlib.TRUSTED_COMMON + ["exit status and panic message of the real binary", "120 s of CPU time (RLIMIT_CPU) as the meaning of `hangs`"],
            "theorems": names, "evaluations": ncase, "distinct_nontrivial": len({hashlib.sha1(d_).hexdigest() for d_, _ in inputs}),
            "rule": "token-level mutations (delete/duplicate/insert snippet/swap/replace/truncate/break a literal/insert odd characters; 1-3 per text) of %d seed grammars "
                    "(repository test and doc grammars, generated precedence layouts, hand-written edge cases: inline cycles, macro conditions, match blocks, tuple patterns, raw strings), "
